@@ -207,6 +207,8 @@ def write_evidence(pid, tier, ctx, wall, n_viol, thorough_info=None):
     }
     if thorough_info:
         cov["thorough"] = thorough_info
+    if SELFTEST:
+        cov["positive_fixture"] = dict(SELFTEST)
     ev = {
         "property_id": pid,
         "tier": tier,
@@ -225,8 +227,20 @@ def write_evidence(pid, tier, ctx, wall, n_viol, thorough_info=None):
 
 
 def load_progs(config="default", root=None):
-    fx = F.extract(root or REPO, config)
+    # scratch copies (mutant self-check) are analysed once: do not let them evict /repo's cache entry
+    fx = F.extract(root or REPO, config, use_cache=(root is None or root == REPO))
     return {k: C.Program(v, k) for k, v in fx.items()}
+
+
+SELFTEST = {}
+
+
+def run_selftest():
+    import selftest
+    fails, n = selftest.run()
+    SELFTEST.update({"expectations": n, "failures": fails})
+    if fails:
+        raise F.CheckerBroken("positive fixture not matched (a rule primitive no longer detects its seeded violation): %s" % fails)
 
 
 def main(argv):
@@ -234,6 +248,8 @@ def main(argv):
     cmd = argv[0]
     t0 = time.time()
     try:
+        if cmd != "explain":
+            run_selftest()
         if cmd == "all":
             tier = argv[1] if len(argv) > 1 else "quick"
             progs = load_progs()
